@@ -177,7 +177,13 @@ func recurseValidationCode(att *expr.AttributeExpr, put expr.UserType, attCtx *A
 		for _, v := range u.Values {
 			vatt := v.Attribute
 			if view {
-				val := validateAttribute(attCtx, vatt, put, "v", context+".value", true, view)
+				ctx := attCtx
+				if ctx.Pointer && expr.IsPrimitive(vatt.Type) {
+					// Union values of primitive type are never pointers
+					ctx = attCtx.Dup()
+					ctx.Pointer = false
+				}
+				val := validateAttribute(ctx, vatt, put, "v", context+".value", true, view)
 				if val != "" {
 					types = append(types, attCtx.Scope.Ref(vatt, attCtx.DefaultPkg))
 					vals = append(vals, val)
